@@ -356,8 +356,8 @@ def _collect_uses(t, out, ctx):
         lam = t[1][2]
         _collect_uses(lam[2], out, ctx + [lam[1]])
         return
-    if is_tag(t, 'optor') and is_tag(T.unroot(t[1]), 'maxof'):
-        it = T.unroot(t[1])[1]
+    if is_tag(t, 'max') and len(t[1]) == 2 and T.const(0) in t[1] and any(is_tag(T.unroot(c), 'maxof') for c in t[1]):
+        it = [T.unroot(c) for c in t[1] if is_tag(T.unroot(c), 'maxof')][0][1]
         # maxof(map(filter(elems, pred(A)), value-without-A))
         if is_tag(it, 'map') and not T.mentions(it[2], A) and is_tag(it[1], 'filter') and not T.mentions(it[1][1], A):
             pred = it[1][2][2]
@@ -366,7 +366,7 @@ def _collect_uses(t, out, ctx):
                 return
         out.append(('other', t, list(ctx)))
         return
-    if is_tag(t, 'pos') or is_tag(t, 'min') or is_tag(t, 'max'):
+    if is_tag(t, 'pos') or is_tag(t, 'min') or is_tag(t, 'max'):  # (a max{0, maxof(..)} blocking term was handled above)
         for x in (t[1] if isinstance(t[1], tuple) and t[0] in ('min', 'max') else [t[1]]):
             _collect_uses(x, out, ctx)
         return
